@@ -34,6 +34,10 @@ def run(ctx, F):
     tr = [(b, t, g) for b, t, g in rows if const_arg(t) is True]
     fa = [(b, t, g) for b, t, g in rows if const_arg(t) is False]
     okr = len(tr) == 1 and len(fa) == 1 and bool(ws) and st.cfg.dominates(ws[0][0], tr[0][0]) and not any(st.cfg.dominates(ws[0][0], b) for b, t, g in fa)
+    if not okr and okw:
+        # the same decision returned as a value: `let ok = (self.validator)(&value); if ok { self.value = value } ok`
+        gt = show(strip(sig(st, ws[0][0])[0].tree))
+        okr = bool(rows) and all(show(strip(t)) == gt and not g for b, t, g in rows)
     ctx.judge(okr, "C39.set-guard", "set returns true exactly when it stored the value", expected="true after the store, false otherwise", found=str([show(t) for b, t, g in rows]), where=where(st), key="C39.set-guard|ret")
     w = field_mutators(F, OPT + "MMTKOption", "value")
     ctx.judge(set(w) <= {st.q}, "C39.set-guard", "writers of MMTKOption.value", expected="only MMTKOption::set (and construction)", found=str(sorted(w)), key="C39.set-guard|writers")
@@ -118,6 +122,15 @@ def run(ctx, F):
         for top in prods:
             nm = last_seg(top[2] or top[1])
             k = const_arg(top[3][1]) if len(top[3]) == 2 else None
+            mt = strip(top[3][1]) if len(top[3]) == 2 else None
+            if k is None and mt and mt[0] == "phi" and nm == "checked_mul":
+                # one product whose multiplier was selected from the table beforehand (match on the suffix)
+                ks = [const_arg(a) for a in mt[1]]
+                if ks and all(x in SUFFIX.values() for x in ks):
+                    ctx.ok("C39.size-overflow", "suffix multiplication reports overflow", "u64::checked_mul(parsed, unit), unit in %s" % sorted(ks), where(ps, c.line))
+                    for x in ks:
+                        seen[x] = top
+                    continue
             okp = nm == "checked_mul" and k in SUFFIX.values()
             ctx.judge(okp, "C39.size-overflow", "suffix multiplication reports overflow", expected="u64::checked_mul(parsed, 1024^n)", found=show(top)[-80:], where=where(ps, c.line),
                       key="C39.size-overflow|op|%s" % (k if okp else nm))
@@ -125,6 +138,21 @@ def run(ctx, F):
                 seen[k] = top
     for c in [c for c in live_calls(ps) if c.name == "checked_mul"]:
         k = const_arg(ps.flow.arg_tree(c, 1))
+        mt = strip(ps.flow.arg_tree(c, 1))
+        if k is None and mt and mt[0] == "phi":
+            # the multiplier is picked by comparing the suffix with "k" / "m" / "g" / "t": each constant is assigned under the matching comparison
+            for i, b in enumerate(ps.blocks):
+                if i not in ps.cfg.live:
+                    continue
+                for j, st_ in enumerate(b["s"]):
+                    if st_[0] == "=" and len(st_[1]) == 1 and st_[2][0] == "use":
+                        kv = const_arg(ps.flow.rvalue_tree(st_[2], i, j))
+                        if kv in SUFFIX.values():
+                            tg = [show(strip(p.tree)) for p in guards(ps, i) if p.val is True]
+                            letters = [m.group(1) for x in tg for m in [re.search(r', "([a-z])"\)$', x)] if m]
+                            ctx.judge(len(letters) >= 1 and SUFFIX.get(ord(letters[-1])) == kv, "C39.size-overflow", "suffix %s scales by %s" % (letters[-1:], kv), expected="k=2^10, m=2^20, g=2^30, t=2^40",
+                                      found="selected under %s" % [x[-40:] for x in tg], where=where(ps, c.line), key="C39.size-overflow|table|%s" % kv)
+            continue
         chars = [const_arg(p.tree[3][1]) for p in guards(ps, c.bb) if p.val is True and p.tree and p.tree[0] == "call" and last_seg(p.tree[2] or p.tree[1]) == "ends_with" and len(p.tree[3]) == 2 and isinstance(const_arg(p.tree[3][1]), int)]
         ctx.judge(len(chars) == 1 and SUFFIX.get(chars[0]) == k, "C39.size-overflow", "suffix %s scales by %s" % ([chr(x) for x in chars], k), expected="k=2^10, m=2^20, g=2^30, t=2^40",
                   found="suffix chars %s multiplier %s" % (chars, k), where=where(ps, c.line), key="C39.size-overflow|table|%s" % k)
